@@ -101,10 +101,13 @@ PROPS = {
         "verus": [(U5, ["U5.", "C12.init", "C05.init", "C12.run_on"])],
     },
     "C12": {
-        "witness": ("w_server", ['w_c12_flush']),
+        # "answered ... and those bytes have been flushed": the reply must have been handed to the transport
+        # completely (a short write that is not continued leaves the server waiting while it owes bytes)
+        "also": ["C04.end", "C04.write"],
+        "witness": ("w_server", ['w_c12_flush', 'w_c04_big']),
         "title": "The server never waits for input while it owes a flushed reply",
         "kani": [("k7_tls", ["k7_prepended_write", "k7_switchable_plain"])],
-        "verus": [(U1, ["U1.next", "U1.flush"]), (U5, ["U5."])],
+        "verus": [(U1, ["U1.next", "U1.flush", "U1.end", "U1.write"]), (U5, ["U5."])],
     },
     "C13": {
         "witness": ("w_server", ['w_c13_errors', 'w_c03_responses']),
@@ -151,7 +154,7 @@ PROPS = {
         "witness": ("w_server", ['w_c19_faults']),
         "title": "Connection end and transport faults are reported, never masked",
         "kani": [],
-        "verus": [(U1, ["C01.next.err", "C01.next.none"]), (U2, ["U2."]), (U3, ["U3."]), (U5, ["U5.", "C12.run", "C20.run", "C20.init"])],
+        "verus": [(U1, ["C01.next.err", "C01.next.none"]), (U2, ["U2."]), (U3, ["U3."]), (U5, ["U5.", "C12.run", "C20.run", "C20.init", "C03.on_init"])],
     },
     "C20": {
         "witness": ("w_server", ['w_c20_malformed', 'w_c19_faults', 'w_c01_chunkings', 'w_c12_flush']),
